@@ -11,9 +11,15 @@
    certificate under any sign-preserving rounding; the entry point fista with its argument handling.
    Round 6: fista's ridge_coef = None reads as 0 (repaired code ae57725; the refuted / partial pair became C13_fista_returns); finite
    termination of active_set_nnls and its end-to-end statement (exact arithmetic, positive definite UtU, total tl.solve); the
-   iterates of fista converge to the solution with rate O(1/m) and their KKT residuals with them. *)
+   iterates of fista converge to the solution with rate O(1/m) and their KKT residuals with them.
+   Round 7: the WHOLE function admm (Model/NnlsAdmm.v: loop, proximal_operator call with n_const / order, stopping rule, the
+   ways the call raises) -- with a number of constraints but none selected the dual variable stays zero, the stopping rule
+   never fires, each iteration contracts the distance to the least-squares solution by rho / (mu + rho): end-to-end bound and
+   limit; a state reproduced by the non_negative loop body is a KKT point; the documented stand-alone call raises (refuted /
+   partial pair C13_admm_returns_refuted, C13_admm_returns_partial). *)
 From Coq Require Import List Arith Reals Lra QArith Qabs.
-From TLV Require Import Base.Ops Base.PyList Base.Tensor Base.RSum Model.Nnls Model.NnlsEntry Proofs.NnlsProofs Proofs.NnlsProofsDescent Proofs.NnlsProofsNz Proofs.NnlsProofsAdmm Proofs.NnlsProofsFista Proofs.NnlsProofsFista2 Proofs.NnlsProofsAset Proofs.NnlsProofsAsetCert Proofs.NnlsProofsAsetFull Proofs.NnlsProofsExamples Proofs.NnlsProofsConv Proofs.NnlsProofsStep Proofs.NnlsProofsEntry Proofs.NnlsProofsGap Proofs.NnlsProofsTol0 Proofs.NnlsProofsAsetRnd Proofs.NnlsProofsUnique Proofs.NnlsProofsLimit Proofs.NnlsProofsFistaRate Proofs.NnlsProofsEps Proofs.NnlsProofsAsetTerm.
+From TLV Require Import Base.Ops Base.PyList Base.Tensor Base.RSum Model.Nnls Model.NnlsEntry Proofs.NnlsProofs Proofs.NnlsProofsDescent Proofs.NnlsProofsNz Proofs.NnlsProofsAdmm Proofs.NnlsProofsFista Proofs.NnlsProofsFista2 Proofs.NnlsProofsAset Proofs.NnlsProofsAsetCert Proofs.NnlsProofsAsetFull Proofs.NnlsProofsExamples Proofs.NnlsProofsConv Proofs.NnlsProofsStep Proofs.NnlsProofsEntry Proofs.NnlsProofsGap Proofs.NnlsProofsTol0 Proofs.NnlsProofsAsetRnd Proofs.NnlsProofsUnique Proofs.NnlsProofsLimit Proofs.NnlsProofsFistaRate Proofs.NnlsProofsEps Proofs.NnlsProofsAsetTerm Model.NnlsAdmm Proofs.NnlsProofsAdmmLoop Proofs.NnlsProofsAdmmWitness Model.NnlsMomentum Proofs.NnlsProofsMomentum.
+From TLV Require Model.Prox.
 Import ListNotations.
 Open Scope R_scope.
 
@@ -275,6 +281,172 @@ Theorem C13_admm_none_least_squares :
     ls_obj q r A (Y c) 0 (fun k => mget Rops x' c k) <= ls_obj q r A (Y c) 0 z.
 Proof. exact admm_none_least_squares. Qed.
 Print Assumptions C13_admm_none_least_squares.
+
+(* ---------------------------------------------------------------------------------------------- *)
+(*  admm: the whole function (Model/NnlsAdmm.v)                                                    *)
+(* ---------------------------------------------------------------------------------------------- *)
+(* the loop traced with its stopping decisions (used by the correspondence) computes the loop; any field *)
+Theorem C13_admm_trace_is_loop : forall (F : Type) (Op : fops F) (solve : list (list F) -> list (list F) -> list (list F))
+  (prox : list (list F) -> list (list F)) (UtM UtU : list (list F)) (m r : nat) (tol : F) (fuel : nat)
+  (x : list (list F)) (xs : option (list (list F))) (d : list (list F)),
+  snd (admm_trace Op solve prox UtM UtU m r tol fuel x xs d) = admm_loop Op solve prox UtM UtU m r tol fuel x xs d.
+Proof. exact @admm_trace_snd. Qed.
+Print Assumptions C13_admm_trace_is_loop.
+
+(* the square-root-free stopping test of the model is `tl.norm(a) < tol * tl.norm(b)` (every tol, also negative) *)
+Theorem C13_admm_norm_test_is_norm_test : forall (tol : R) (a b : list (list R)),
+  norm_lt Rops tol a b = true <-> sqrt (nrm2 Rops a) < tol * sqrt (nrm2 Rops b).
+Proof. exact norm_lt_spec. Qed.
+Print Assumptions C13_admm_norm_test_is_norm_test.
+
+(* REFUTED: "the call returns" fails for the use the docstring recommends outside constrained_parafac (n_const = 1, a
+   constraint, `order` left at its default None): validate_constraints indexes its lists with None.  Witness executed at the
+   rational instance (third / fourth line: with order = 0, and with n_const = None, the same data return; last line: no
+   iteration leaves x_split unbound), then the general statement: every call with n_const given and order None raises. *)
+Example C13_admm_returns_refuted :
+  admm Qops aw_solve (Some 1%nat) None (KNonneg) [[4%Q]] [[2%Q]] [[0%Q]] [[0%Q]] 1 1 100 (1#10000)%Q = Err /\
+  admm Qops aw_solve (Some 1%nat) None (KNone) [[4%Q]] [[2%Q]] [[0%Q]] [[0%Q]] 1 1 100 (1#10000)%Q = Err /\
+  admm Qops aw_solve (Some 1%nat) (Some 0%nat) (KNonneg) [[4%Q]] [[2%Q]] [[0%Q]] [[0%Q]] 1 1 3 (1#10000)%Q
+    = Ok ([[7#4]], [[7#4]], [[0]])%Q /\
+  admm Qops aw_solve None None (KNone) [[4%Q]] [[2%Q]] [[0%Q]] [[0%Q]] 1 1 100 (1#10000)%Q = Ok ([[2]], [[1]], [[0]])%Q /\
+  admm Qops aw_solve None None (KNone) [[4%Q]] [[2%Q]] [[0%Q]] [[0%Q]] 1 1 0 (1#10000)%Q = Err.
+Proof. exact admm_order_none_witness. Qed.
+Theorem C13_admm_raises : forall (F : Type) (Op : fops F) (solve : list (list F) -> list (list F) -> list (list F))
+  (n_const order : option nat) (k : constr) (UtM UtU x dual : list (list F)) (m r n : nat) (tol : F),
+  n = 0%nat \/ (exists nc : nat, n_const = Some nc /\ (order = None \/ (exists o : nat, order = Some o /\ (nc <= o)%nat))) ->
+  admm Op solve n_const order k UtM UtU x dual m r n tol = Err.
+Proof. exact @admm_raises. Qed.
+Print Assumptions C13_admm_raises.
+(* PARTIAL (the restricted statement that holds): with at least one iteration and (n_const, order) accepted by
+   proximal_operator -- n_const None, or 0 <= order < n_const -- the call returns, for every data, constraint, tol, tl.solve *)
+Theorem C13_admm_returns_partial : forall (F : Type) (Op : fops F) (solve : list (list F) -> list (list F) -> list (list F))
+  (n_const order : option nat) (k : constr) (UtM UtU x dual : list (list F)) (m r n : nat) (tol : F),
+  n <> 0%nat ->
+  n_const = None \/ (exists nc o : nat, n_const = Some nc /\ order = Some o /\ (o < nc)%nat) ->
+  exists t, admm Op solve n_const order k UtM UtU x dual m r n tol = Ok t.
+Proof. exact @admm_returns. Qed.
+Print Assumptions C13_admm_returns_partial.
+
+(* the n_const=None branch of the whole-function model IS admm_none: C13_admm_none_least_squares applies to the entry point *)
+Theorem C13_admm_nconst_none_is_admm_none : forall (F : Type) (Op : fops F) (solve : list (list F) -> list (list F) -> list (list F))
+  (order : option nat) (k : constr) (UtM UtU x dual : list (list F)) (m r n : nat) (tol : F),
+  n <> 0%nat ->
+  match admm_none Op solve UtM UtU x dual m r n with
+  | (x', Some xs', d') => admm Op solve None order k UtM UtU x dual m r n tol = Ok (x', xs', d')
+  | _ => False
+  end.
+Proof. exact @admm_nconst_none. Qed.
+Print Assumptions C13_admm_nconst_none_is_admm_none.
+
+(* the elementwise operators of the model are those of the C12 model of tensorly/tenalg/proximal.py, row by row *)
+Theorem C13_admm_prox_is_C12_model : forall (F : Type) (Op : fops F) (t : F) (T : list (list F)),
+  apply_constr Op KNonneg T = map (Prox.non_negative Op) T /\
+  (is0 Op t = false -> apply_constr Op (KL1 t) T = map (Prox.soft_thresholding Op t) T) /\
+  (is0 Op t = false -> apply_constr Op (KL2sq t) T = map (Prox.l2_square_prox Op t) T).
+Proof. intros F Op t T. exact (conj (prox_is_C12_non_negative Op T) (conj (prox_is_C12_soft_thresholding Op t T) (prox_is_C12_l2_square Op t T))). Qed.
+Print Assumptions C13_admm_prox_is_C12_model.
+
+(* FULL, no hypothesis: with a number of constraints but none selected (proximal_operator returns its argument) the dual
+   variable is identically zero after every loop body, whatever the data, shapes and tl.solve ... *)
+Theorem C13_admm_unconstrained_dual_zero : forall (solve : list (list R) -> list (list R) -> list (list R))
+  (UtM UtU : list (list R)) (m r : nat) (x d : list (list R)),
+  allz (snd (admm_body Rops solve (fun T => T) UtM UtU m r x d)).
+Proof. exact body_id_dual. Qed.
+Print Assumptions C13_admm_unconstrained_dual_zero.
+(* ... hence the stopping rule never fires: for EVERY tol the loop is the loop without the rule (all n_iter_max bodies run) *)
+Theorem C13_admm_unconstrained_runs_all : forall (solve : list (list R) -> list (list R) -> list (list R))
+  (UtM UtU : list (list R)) (m r : nat) (tol : R) (fuel : nat) (x : list (list R)) (xs : option (list (list R))) (d : list (list R)),
+  admm_loop Rops solve (fun T => T) UtM UtU m r tol fuel x xs d = admm_iter solve UtM UtU m r fuel x xs d.
+Proof. exact admm_id_runs_all. Qed.
+Print Assumptions C13_admm_unconstrained_runs_all.
+
+(* FULL, END TO END -- the clause "ADMM without constraints returns the unconstrained least-squares solution" for the loop
+   (n_const given, no constraint selected, dual_var initialised to zero): for every size, data with rho = trace(UtU)/r > 0,
+   lower bound mu >= 0 of the quadratic form of UtU, tl.solve meeting its contract on the ONE matrix (UtU + rho I)^T the loop
+   inverts, every tol and every n_iter_max = n >= 1: the call returns the state after exactly n bodies, the dual variable is
+   zero, and the squared distance of every row of x to the solution xstar of the normal equations has shrunk by
+   (rho / (mu + rho))^(2n) (written without division).  Hypotheses jointly satisfiable: C13_admm_hypotheses_satisfiable. *)
+Theorem C13_admm_unconstrained_bound : forall (solve : list (list R) -> list (list R) -> list (list R)) (UtM UtU : list (list R)) (m r : nat),
+  wfm r r UtU -> wfm m r UtM -> 0 < admm_rho Rops UtU r ->
+  forall mu : R, 0 <= mu ->
+  (forall v : nat -> R, mu * rsum r (fun i => v i ^ 2) <= rsum r (fun i => rsum r (fun k => v i * mget Rops UtU k i * v k))) ->
+  (forall B, wfm r m B -> solves r m (admm_lhs Rops UtU r) B (solve (admm_lhs Rops UtU r) B)) ->
+  forall xstar : list (list R),
+  (forall c i, (c < m)%nat -> (i < r)%nat -> rsum r (fun k => mget Rops UtU k i * mget Rops xstar c k) = mget Rops UtM c i) ->
+  forall (nc o : nat) (tol : R) (n : nat) (x d : list (list R)),
+  (o < nc)%nat -> n <> 0%nat -> wfm m r x -> wfm m r d -> allz d ->
+  exists x' xs' d',
+    admm Rops solve (Some nc) (Some o) KNone UtM UtU x d m r n tol = Ok (x', xs', d') /\
+    (x', Some xs', d') = admm_iter solve UtM UtU m r n x None d /\
+    wfm m r x' /\ allz d' /\
+    forall c, (c < m)%nat ->
+      ((mu + admm_rho Rops UtU r) ^ 2) ^ n * err2 r xstar x' c <= (admm_rho Rops UtU r ^ 2) ^ n * err2 r xstar x c.
+Proof. exact admm_unconstrained_bound. Qed.
+Print Assumptions C13_admm_unconstrained_bound.
+
+(* the same from ANY initial dual variable: the first body absorbs it (the dual variable becomes zero, x becomes x_1), the
+   contraction holds from x_1 on *)
+Theorem C13_admm_unconstrained_bound_any_dual : forall (solve : list (list R) -> list (list R) -> list (list R)) (UtM UtU : list (list R)) (m r : nat),
+  wfm r r UtU -> wfm m r UtM -> 0 < admm_rho Rops UtU r ->
+  forall mu : R, 0 <= mu ->
+  (forall v : nat -> R, mu * rsum r (fun i => v i ^ 2) <= rsum r (fun i => rsum r (fun k => v i * mget Rops UtU k i * v k))) ->
+  (forall B, wfm r m B -> solves r m (admm_lhs Rops UtU r) B (solve (admm_lhs Rops UtU r) B)) ->
+  forall xstar : list (list R),
+  (forall c i, (c < m)%nat -> (i < r)%nat -> rsum r (fun k => mget Rops UtU k i * mget Rops xstar c k) = mget Rops UtM c i) ->
+  forall (nc o : nat) (tol : R) (n : nat) (x d : list (list R)),
+  (o < nc)%nat -> wfm m r x -> wfm m r d ->
+  let x1 := fst (fst (admm_body Rops solve (fun T => T) UtM UtU m r x d)) in
+  exists x' xs' d',
+    admm Rops solve (Some nc) (Some o) KNone UtM UtU x d m r (S n) tol = Ok (x', xs', d') /\
+    wfm m r x' /\ allz d' /\
+    forall c, (c < m)%nat ->
+      ((mu + admm_rho Rops UtU r) ^ 2) ^ n * err2 r xstar x' c <= (admm_rho Rops UtU r ^ 2) ^ n * err2 r xstar x1 c.
+Proof. exact admm_unconstrained_bound_any_dual. Qed.
+Print Assumptions C13_admm_unconstrained_bound_any_dual.
+
+(* the limit: for positive definite UtU (mu > 0) the returned x tends to the least-squares solution as n_iter_max grows *)
+Theorem C13_admm_unconstrained_converges : forall (solve : list (list R) -> list (list R) -> list (list R)) (UtM UtU : list (list R)) (m r : nat),
+  wfm r r UtU -> wfm m r UtM -> 0 < admm_rho Rops UtU r ->
+  forall mu : R, 0 <= mu ->
+  (forall v : nat -> R, mu * rsum r (fun i => v i ^ 2) <= rsum r (fun i => rsum r (fun k => v i * mget Rops UtU k i * v k))) ->
+  (forall B, wfm r m B -> solves r m (admm_lhs Rops UtU r) B (solve (admm_lhs Rops UtU r) B)) ->
+  forall xstar : list (list R),
+  (forall c i, (c < m)%nat -> (i < r)%nat -> rsum r (fun k => mget Rops UtU k i * mget Rops xstar c k) = mget Rops UtM c i) ->
+  forall (nc o : nat) (tol : R) (x d : list (list R)),
+  (o < nc)%nat -> 0 < mu -> wfm m r x -> wfm m r d -> allz d ->
+  forall eps, 0 < eps -> exists N, forall n, (N <= n)%nat -> n <> 0%nat ->
+    forall x' xs' d', admm Rops solve (Some nc) (Some o) KNone UtM UtU x d m r n tol = Ok (x', xs', d') ->
+    forall c, (c < m)%nat -> err2 r xstar x' c < eps.
+Proof. exact admm_unconstrained_converges. Qed.
+Print Assumptions C13_admm_unconstrained_converges.
+
+(* non-vacuity: the 1 x 1 instance UtU = [[2]], UtM = [[4]], mu = 2, xstar = [[2]], solve = division satisfies all the
+   hypotheses at once; on it the bound reads 16^n (x_n - 2)^2 <= 4^n * 4 *)
+Example C13_admm_hypotheses_satisfiable :
+  wfm 1 1 [[2]] /\ wfm 1 1 [[4]] /\ 0 < admm_rho Rops [[2]] 1 /\
+  (forall v : nat -> R, 2 * rsum 1 (fun i => (v i)^2) <= rsum 1 (fun i => rsum 1 (fun k => v i * mget Rops [[2]] k i * v k))) /\
+  (forall B, wfm 1 1 B -> solves 1 1 (admm_lhs Rops [[2]] 1) B (asolve1 (admm_lhs Rops [[2]] 1) B)) /\
+  (forall c i, (c < 1)%nat -> (i < 1)%nat -> rsum 1 (fun k => mget Rops [[2]] k i * mget Rops [[2]] c k) = mget Rops [[4]] c i).
+Proof. exact admm_example_hyps. Qed.
+Example C13_admm_example_bound : forall n, n <> 0%nat ->
+  exists x' xs' d', admm Rops asolve1 (Some 1%nat) (Some 0%nat) KNone [[4]] [[2]] [[0]] [[0]] 1 1 n (1/10000) = Ok (x', xs', d') /\
+    ((2 + 2)^2)^n * (mget Rops x' 0 0 - 2)^2 <= (2^2)^n * (0 - 2)^2.
+Proof. exact admm_example_bound. Qed.
+
+(* FULL: admm with non_negative=True -- a state (x, dual_var) that one loop body reproduces is a KKT point of the row
+   problems min 1/2 z' UtU z - UtM_c z, z >= 0: x >= 0, gradient >= 0, complementary; the multiplier is rho * dual_var.
+   (Fixed point => KKT only; nothing is proved about the convergence of the constrained iteration.) *)
+Theorem C13_admm_nonneg_fixed_point_kkt : forall (solve : list (list R) -> list (list R) -> list (list R)) (UtM UtU : list (list R)) (m r : nat),
+  wfm r r UtU -> wfm m r UtM -> 0 < admm_rho Rops UtU r ->
+  (forall B, wfm r m B -> solves r m (admm_lhs Rops UtU r) B (solve (admm_lhs Rops UtU r) B)) ->
+  forall x d : list (list R), wfm m r x -> wfm m r d ->
+  let b := admm_body Rops solve (apply_constr Rops KNonneg) UtM UtU m r x d in
+  fst (fst b) = x -> snd b = d ->
+  forall c i, (c < m)%nat -> (i < r)%nat ->
+    let g := rsum r (fun k => mget Rops UtU k i * mget Rops x c k) - mget Rops UtM c i in
+    0 <= mget Rops x c i /\ 0 <= g /\ mget Rops x c i * g = 0 /\ g = admm_rho Rops UtU r * mget Rops d c i.
+Proof. exact admm_nonneg_fixed_point_kkt. Qed.
+Print Assumptions C13_admm_nonneg_fixed_point_kkt.
 
 (* non-vacuity of the HALS fixed-point / optimality theorems: a 2 x 1 problem with one inactive and one active
    constraint; its optimum (3/2, 0) satisfies every hypothesis above at once (plain and l1/ridge-penalised) *)
@@ -741,6 +913,40 @@ Theorem C13_fista_call_rate : forall (UtM UtU : list (list R)) (r n : nat) (sp :
     0 <= gap /\ (INR m + 1)^2 * gap <= 2 * (sigma + 2 * rd) * rsum r (fun i => (mget Rops start i j - mget Rops X i j)^2).
 Proof. exact fista_call_rate. Qed.
 Print Assumptions C13_fista_call_rate.
+
+(* FULL (round 7): the momentum recurrence is COMPUTED in the model (Model/NnlsMomentum.v: momentum_old = 1, momentum =
+   (1 + sqrt(1 + 4 momentum_old^2)) / 2, coefficient (momentum_old - 1) / momentum); with R's sqrt the coefficient list of K
+   iterations is exactly the list `map (beta_of tseq) (seq 0 K)` the rate theorems are stated for; the first coefficient is 0,
+   all lie in [0, 1) *)
+Theorem C13_fista_momentum_in_model : forall K : nat, fista_betas Rops sqrt K = map (beta_of tseq) (seq 0 K).
+Proof. exact fista_betas_tseq. Qed.
+Print Assumptions C13_fista_momentum_in_model.
+Theorem C13_fista_momentum_range : forall K : nat, Forall (fun b => 0 <= b < 1) (fista_betas Rops sqrt K).
+Proof. exact fista_betas_range. Qed.
+Print Assumptions C13_fista_momentum_range.
+(* ... so C13_fista_call_rate is a statement about the call with its OWN momentum, fista_full: fista(UtM, UtU, x0,
+   n_iter_max = K'+1, non_negative=True, sparsity_coef, ridge_coef, lr=None, tol, epsilon) *)
+Theorem C13_fista_full_rate : forall (UtM UtU : list (list R)) (r n : nat) (sp : option R) (rd sigma tol eps : R)
+  (x0 : option (list (list R))) (K' j : nat) (X : list (list R)),
+  wfm r r UtU -> wfm r n UtM -> (j < n)%nat -> (forall i k, Gf UtU i k = Gf UtU k i) -> (forall d, 0 <= quad r (Gf UtU) d) ->
+  0 <= rd -> 0 < sigma + 2 * rd ->
+  (forall d : nat -> R, quad r (Gf UtU) d <= sigma * rsum r (fun i => (d i)^2)) ->
+  match x0 with Some x => wfm r n x | None => True end ->
+  let spv := match sp with Some s => s | None => 0 end in
+  let start := match x0 with Some x => x | None => zeros_like Rops UtM end in
+  (forall i, (i < r)%nat -> eps <= mget Rops X i j /\ 0 <= qp_grad r (Gf UtU) (bf UtM j) spv rd (colf X j) i /\
+                            (mget Rops X i j - eps) * qp_grad r (Gf UtU) (bf UtM j) spv rd (colf X j) i = 0) ->
+  exists W m, fista_full Rops sqrt UtM UtU n true sp (Some rd) None sigma tol eps x0 (S K') = Ok W /\
+    (1 <= m <= S K')%nat /\
+    let gap := qp_f r (Gf UtU) (bf UtM j) spv rd (colf W j) - qp_f r (Gf UtU) (bf UtM j) spv rd (colf X j) in
+    0 <= gap /\ (INR m + 1)^2 * gap <= 2 * (sigma + 2 * rd) * rsum r (fun i => (mget Rops start i j - mget Rops X i j)^2).
+Proof. exact fista_full_rate. Qed.
+Print Assumptions C13_fista_full_rate.
+(* the square root the correspondence executes at Q is the floor of the square root on the grid 2^-60 *)
+Theorem C13_qsqrt_spec : forall q : Q, (0 <= q)%Q ->
+  (qsqrt q * qsqrt q <= q)%Q /\ (q < (qsqrt q + (1 # 2 ^ 60)) * (qsqrt q + (1 # 2 ^ 60)))%Q /\ (0 <= qsqrt q)%Q.
+Proof. exact qsqrt_spec. Qed.
+Print Assumptions C13_qsqrt_spec.
 
 (* the code's momentum sequence meets the hypotheses of C13_fista_rate (non-vacuity of the sequence hypotheses) *)
 Example C13_fista_momentum_sequence : tseq 0 = 0 /\ tseq 1 = 1 /\
